@@ -942,7 +942,51 @@ def regex_rule(ctx):
     regex_backtracking(ctx, 'C17.regex', ['bumble.hfp', 'bumble.at', 'bumble.transport'])
 
 
+def sdp_containment(ctx):
+    """A nested SDP element must end inside its container: otherwise the parser's offset moves backwards when the
+    container closes and the tail is parsed once per enclosing level (2^depth)."""
+    R, p = ctx.r, ctx.p
+    rule = 'C17.sdp-containment'
+    pn = p.find('bumble.sdp.DataElementParser.parse_next')
+    lf = p.find('bumble.sdp.DataElementParser._list_from_bytes')
+    if pn is None or lf is None:
+        R.bad(rule, 'bumble.sdp.DataElementParser', 'anchor missing')
+        return
+    # the attribute holding the container's end: assigned from the end_offset parameter before the element loop
+    param = lf.args.args[1].arg if len(lf.args.args) > 1 else None
+    loops = [n for n in lf.body if isinstance(n, ast.While)]
+    attrs = set()
+    if loops and param:
+        for st in lf.body[:lf.body.index(loops[0])]:
+            if isinstance(st, ast.Assign):
+                pairs = []
+                for t in st.targets:
+                    if isinstance(t, ast.Tuple) and isinstance(st.value, ast.Tuple):
+                        pairs += list(zip(t.elts, st.value.elts))
+                    else:
+                        pairs.append((t, st.value))
+                for t, v in pairs:
+                    if dotted(t) and dotted(t).startswith('self.') and isinstance(v, ast.Name) and v.id == param:
+                        attrs.add(dotted(t))
+    R.check(bool(attrs), rule, 'bumble.sdp.DataElementParser._list_from_bytes | container end recorded', f'{sorted(attrs)} = {param} before the element loop', 'the end of the sequence being parsed is not recorded for the elements parsed inside it', p.loc(lf))
+    # parse_next: before it descends (or consumes the value), a raise guarded by "<element end> > <container end>"
+    ok = False
+    first_desc = min([c.lineno for c in calls_in(pn) if dotted(c.func) == 'self._list_from_bytes'] or [10 ** 9])
+    for n in walk_local(pn):
+        if isinstance(n, ast.If) and any(isinstance(x, ast.Raise) for x in n.body) and n.lineno < first_desc:
+            for t, pol in paths.flat_guards(n.body[0], stop=pn):
+                if isinstance(t, ast.Compare) and len(t.ops) == 1 and isinstance(t.ops[0], (ast.Gt, ast.GtE, ast.Lt, ast.LtE)):
+                    sides = {dotted(t.left) or norm(t.left), dotted(t.comparators[0]) or norm(t.comparators[0])}
+                    if sides & attrs and any('value_end' in x or 'value_size' in x for x in sides):
+                        big = t.left if isinstance(t.ops[0], (ast.Gt, ast.GtE)) else t.comparators[0]
+                        ok = ok or (pol and (dotted(big) or norm(big)) not in attrs)
+    R.check(ok, rule, 'bumble.sdp.DataElementParser.parse_next | element ends inside its container', 'an element whose end lies past the container end raises before anything is parsed from it', 'a nested element may extend past the end of its container: when the container closes the offset moves backwards and the tail is parsed again by every enclosing level (exponential in the nesting depth)', p.loc(pn))
+    restored = any(isinstance(st, ast.Assign) and any(dotted(t) in attrs for t in st.targets) for st in lf.body[lf.body.index(loops[0]) + 1:]) if loops else False
+    R.check(restored, rule, 'bumble.sdp.DataElementParser._list_from_bytes | container end restored', 'the enclosing container bound is put back after the loop', 'the bound of the enclosing container is not restored after a nested sequence: siblings that follow are checked against the wrong end', p.loc(lf))
+
+
 RULES = [
+    ('C17.sdp-containment', sdp_containment),
     ('C17.regex', regex_rule),
     ('C17.tx-progress', tx_progress),
     ('C17.cid-domain', cid_domain_rule),
